@@ -127,6 +127,11 @@ SITES = {
     'prince_list': ('lib_princeling/wordlist_generation.py', 'create_prince_wordlist'),
     'random_walk': ('lib_guesser/pcfg_grammar.py', 'PcfgGrammar.random_walk'),
     'honey_guess': ('lib_guesser/pcfg_grammar.py', 'PcfgGrammar._honeyword_recursive_guess'),
+    # edit_rules
+    'edit_length': ('edit_rules.py', 'edit_length'),
+    'edit_terminal_set': ('edit_rules.py', 'edit_terminal_set'),
+    'edit_check_regex': ('edit_rules.py', 'check_regex'),
+    'edit_rules': ('edit_rules.py', 'edit_rules'),
     # OMEN generator
     'gs_next_guess': ('lib_guesser/omen/guess_structure.py', 'GuessStructure.next_guess'),
     'gs_fill': ('lib_guesser/omen/guess_structure.py', 'GuessStructure._fill_out_parse_tree'),
@@ -261,9 +266,33 @@ def princeGoOn (num max_size : Nat) : Bool := {N:prince_list:2} num max_size
 end Pcfg.Generated.Expand
 '''
 
+TEMPLATES['EditRules'] = '''import PcfgVerif.Model.Prob
+/-! GENERATED by harness/translate.py from edit_rules.py (`edit_length`) -- do not edit. -/
+namespace Pcfg.Generated.EditRules
+
+/-- length added for a `Y` token -/
+def yearLen : Nat := {I:edit_length:11}
+def totalStart : Nat := {I:edit_length:2}
+def isA (c : Char) : Bool := {C:edit_length:3} c 'A'
+def isD (c : Char) : Bool := {C:edit_length:6} c 'D'
+def isY (c : Char) : Bool := {C:edit_length:9} c 'Y'
+def isO (c : Char) : Bool := {C:edit_length:12} c 'O'
+def isK (c : Char) : Bool := {C:edit_length:15} c 'K'
+def isX (c : Char) : Bool := {C:edit_length:18} c 'X'
+
+/-- the three `if / elif / elif` tests that keep a line -/
+def keepLen (total min_length max_length : Nat) : Bool :=
+  if (total == 0) && ({N:edit_length:21} total max_length) then true
+  else if ({N:edit_length:22} total min_length) && (max_length == 0) then true
+  else if ({N:edit_length:23} total min_length) && ({N:edit_length:24} total max_length) then true
+  else false
+
+end Pcfg.Generated.EditRules
+'''
+
 # which template uses which sites (all holes of a site not mentioned in a template are pinned to
 # their recorded reference value: a change there is reported as `unmodelled_hole_change`)
-MODULES = {'PQ': 'PQ.lean', 'Expand': 'Expand.lean'}
+MODULES = {'PQ': 'PQ.lean', 'Expand': 'Expand.lean', 'EditRules': 'EditRules.lean'}
 
 LEAN_CMP = {'lt': '.lt', 'le': '.le', 'gt': '.gt', 'ge': '.ge', 'eq': '.eq', 'ne': '.ne'}
 
